@@ -825,6 +825,16 @@ func (e *Env) callExpr(x *ECall) tv {
 	case "cap":
 		r := e.eval(x.Args[0])
 		return tv{scap(r.v.(*Term)), types.Typ[types.Int]}
+	case "fmtd", "fmtf":
+		// fmtd(i) / fmtf(x): the text fmt renders for %d of the integer i / %f of the float x
+		v := u.evalTerm(e, x.Args[0])
+		if x.Fn == "fmtd" {
+			return tv{App(SStr, u.ctx.Func("fmtd", []Sort{SInt}, SStr), u.toInt(v)), types.Typ[types.String]}
+		}
+		if v.Sort == SInt {
+			v = ToReal(v)
+		}
+		return tv{App(SStr, u.ctx.Func("fmtf", []Sort{SReal}, SStr), v), types.Typ[types.String]}
 	case "aliases":
 		// aliases(a, b): the two slices (or pointers) live in the same allocation
 		ra, rb := e.eval(x.Args[0]), e.eval(x.Args[1])
